@@ -3,7 +3,7 @@
     configuration, the ClientHello's server name, the connection's local IP, what the non-cache
     part contributed; observation: error / certificate (hash, completeness) / empty certificate
     with nil error); 1 = one MatchWildcard call; 2 = one normalizedName call. *)
-From CM Require Import Lib.Str Lib.Wire Gen.Consts Cache.Model Lookup.Model.
+From CM Require Import Lib.Str Lib.Wire Gen.Consts Cache.Model Cache.Check Lookup.Model.
 Open Scope N_scope.
 
 Inductive obs :=
@@ -11,27 +11,38 @@ Inductive obs :=
 | OCert (h : hash) (complete : bool)
 | OEmpty.                                   (* Certificate{} with a nil error *)
 
-Record attr := Attr { at_sup : bool; at_valid : bool; at_complete : bool }.
+(** per cached certificate: hello.SupportsCertificate, within its validity now, chain and key
+    present, and the subject names the LEAF really carries (as the harness issued it -- not the
+    Names certmagic derived from it) *)
+Record attr := Attr { at_sup : bool; at_valid : bool; at_complete : bool; at_names : list name }.
 
 Record lcase := LCase {
   l_cap : nat;
-  l_state : state;
+  l_state : state;                 (* both cache maps before the call *)
   l_attrs : amap attr;
   l_cfg : config;
   l_sni : str;
   l_ip : str;
-  l_env : env;
-  l_loaded_complete : bool;
-  l_obs : obs
+  l_conn : bool;                   (* hello.Conn != nil *)
+  l_abort : bool;                  (* the "tls_get_certificate" event handler returns an error *)
+  l_protos : list str;             (* hello.SupportedProtos *)
+  l_policy : policy;               (* Config.CertSelection: none, or one of the harness doubles *)
+  l_envx : envx;                   (* IDNA form of the server name, storage content, eviction victim *)
+  l_stored_complete : amap bool;   (* per stored certificate (by hash): chain and key present *)
+  l_obs : obs;
+  l_post : state;                  (* both cache maps after the call *)
+  l_amc : list hash                (* Cache.AllMatchingCertificates(normalised server name), before the call *)
 }.
 
 Inductive case :=
 | KLookup (ltbl : list (N * N)) (stbl : list N) (c : lcase)
 | KMatch (ltbl : list (N * N)) (subject wildcard : str) (o : bool)
-| KNorm (ltbl : list (N * N)) (stbl : list N) (s o : str).
+| KNorm (ltbl : list (N * N)) (stbl : list N) (s o : str)
+| KQual (stbl : list N) (s : str) (o : bool)
+| KName (ltbl : list (N * N)) (stbl : list N) (dflt ip : str) (idna : option str) (o : option str).
 
 Definition attr_get (a : amap attr) (h : hash) : attr :=
-  match alookup h a with Some x => x | None => Attr false false false end.
+  match alookup h a with Some x => x | None => Attr false false false [] end.
 
 Definition result_eqb (r : result) (o : obs) : bool :=
   match r, o with
@@ -44,48 +55,172 @@ Section Run.
   Variable lower : N -> N.
   Variable is_space : N -> bool.
 
-  Definition run_lookup (c : lcase) : result :=
-    lookup lower is_space (fun h => at_sup (attr_get (l_attrs c) h)) (fun h => at_valid (attr_get (l_attrs c) h))
-           (l_state c) (l_cap c) (l_cfg c) (l_sni c) (l_ip c) (l_env c).
+  Definition supf (c : lcase) : hash -> bool := fun h => at_sup (attr_get (l_attrs c) h).
+  Definition validf (c : lcase) : hash -> bool := fun h => at_valid (attr_get (l_attrs c) h).
+  Definition self (c : lcase) : state -> name -> option cert := sel_policy (supf c) (validf c) (l_policy c).
+
+  Definition run_lookup_x (c : lcase) : result * state :=
+    lookup_x lower is_space (self c) (l_conn c) (l_state c) (l_cap c) (l_cfg c) (l_sni c) (l_ip c) (l_envx c).
 
   (** the index names tried for a match, in order of preference *)
   Definition match_names (c : lcase) : list name :=
     let n := normalize lower is_space (l_sni c) in
-    if is_nil n then [l_ip c] else n :: wildcard_candidates n.
+    if is_nil n then (if l_conn c then [l_ip c] else []) else n :: wildcard_candidates n.
   Definition first_listed (s : state) (cands : list name) : option name :=
     find (fun m => negb (is_nil (idx s m))) cands.
 
   Definition listed_under (s : state) (h : hash) (m : name) : bool :=
     mem_str h (idx s m) &&
     match alookup h (cache s) with Some c => mem_str m (c_names c) | None => false end.
+  (** ... and the leaf of the answer really carries that name *)
+  Definition really_names (c : lcase) (h : hash) (m : name) : bool :=
+    mem_str m (at_names (attr_get (l_attrs c) h)).
+
+  (** the certificate just loaded from storage: only when the cache is almost full, for the name
+      of the ClientHello (which must qualify), found under that name or under the name with its
+      first label replaced by "*", and still valid (if it is due for renewal it is served all the same and removed afterwards) *)
+  Definition loaded_ok (c : lcase) (h : hash) : bool :=
+    almost_full (l_cap c) (length (cache (l_state c))) &&
+    match hello_name lower is_space (l_cfg c) (l_ip c) (x_idna (l_envx c)) with
+    | Some nm =>
+        subject_qualifies is_space nm &&
+        match load_from_storage (x_storage (l_envx c)) (x_broken (l_envx c)) nm with
+        | Some x => sd_servable x && str_eqb (c_hash (sd_cert x)) h
+        | None => false
+        end
+    | None => false
+    end.
+
+  (** the name the ClientHello asks for is unusable: its IDNA conversion fails or it does not qualify *)
+  Definition name_bad (c : lcase) : bool :=
+    match hello_name lower is_space (l_cfg c) (l_ip c) (x_idna (l_envx c)) with
+    | Some nm => negb (subject_qualifies is_space nm)
+    | None => true
+    end.
+  (** a certificate for that name can be loaded from storage (cache almost full, stored, still valid) *)
+  Definition loadable (c : lcase) : bool :=
+    almost_full (l_cap c) (length (cache (l_state c))) &&
+    match hello_name lower is_space (l_cfg c) (l_ip c) (x_idna (l_envx c)) with
+    | Some nm => match load_from_storage (x_storage (l_envx c)) (x_broken (l_envx c)) nm with
+                 | Some x => sd_servable x | None => false end
+    | None => false
+    end.
+  Definition sel_some (c : lcase) (v : name) : bool :=
+    match self c (l_state c) v with Some _ => true | None => false end.
+  (** "an error if and only if no certificate is available": nothing matched, and the name is
+      unusable or neither the default name (no SNI) nor the fallback name yields a certificate and
+      none can be loaded *)
+  Definition error_ok (c : lcase) : bool :=
+    let n := normalize lower is_space (l_sni c) in
+    let dflt := is_nil n && negb (is_nil (default_name (l_cfg c))) in
+    let fb := negb (is_nil (fallback_name (l_cfg c))) in
+    name_bad c ||
+    negb ((dflt && sel_some c (normalize lower is_space (default_name (l_cfg c)))) ||
+          (fb && sel_some c (normalize lower is_space (fallback_name (l_cfg c)))) ||
+          loadable c).
+
+  Definition sel_is (c : lcase) (v : name) (h : hash) : bool :=
+    match self c (l_state c) v with Some x => str_eqb (c_hash x) h | None => false end.
+
+  (** "complete" of the answer as observed must also be what was recorded for that certificate *)
+  Definition known_complete (c : lcase) (h : hash) : bool :=
+    match alookup h (cache (l_state c)) with
+    | Some _ => at_complete (attr_get (l_attrs c) h)
+    | None => match alookup h (l_stored_complete c) with Some b => b | None => false end
+    end.
 
   (** the property, evaluated on an observation *)
-  Definition spec_lookup (c : lcase) : bool :=
+  Definition spec_lookup_x_o (c : lcase) (o : obs) : bool :=
     let s := l_state c in
     let n := normalize lower is_space (l_sni c) in
-    let good h := at_sup (attr_get (l_attrs c) h) && at_valid (attr_get (l_attrs c) h) in
-    match l_obs c with
-    | OEmpty => false                                         (* never empty with a nil error *)
-    | OErr => match first_listed s (match_names c) with       (* a listed name is never refused *)
-              | Some _ => false | None => true end
-    | OCert h complete =>
-        complete &&
-        match first_listed s (match_names c) with
-        | Some m =>
-            (* exact before wildcard, fewer wildcard labels first; local IP when there is no SNI;
-               among the certificates listed under that name a supported unexpired one *)
-            listed_under s h m && (negb (existsb good (idx s m)) || good h)
-        | None =>
-            (* a certificate that does not cover the name: only the default name's (no SNI), the
-               fallback name's, or the one just loaded from storage when the cache is almost full *)
-            (is_nil n && negb (is_nil (default_name (l_cfg c))) &&
-               listed_under s h (normalize lower is_space (default_name (l_cfg c)))) ||
-            (negb (is_nil (fallback_name (l_cfg c))) &&
-               listed_under s h (normalize lower is_space (fallback_name (l_cfg c)))) ||
-            (almost_full (l_cap c) (length (cache s)) &&
-               match loaded (l_env c) with Some lc => str_eqb (c_hash lc) h | None => false end)
+    let good h := supf c h && validf c h in
+    let dflt := is_nil n && negb (is_nil (default_name (l_cfg c))) in
+    let fb := negb (is_nil (fallback_name (l_cfg c))) in
+    match l_policy c with
+    | PDefault =>
+        match o with
+        | OEmpty => false                                         (* never empty with a nil error *)
+        | OErr => match first_listed s (match_names c) with       (* a listed name is never refused *)
+                  | Some _ => false | None => error_ok c end
+        | OCert h complete =>
+            complete && known_complete c h &&
+            match first_listed s (match_names c) with
+            | Some m =>
+                (* exact before wildcard, fewer wildcard labels first; local IP when there is no SNI;
+                   among the certificates listed under that name a supported unexpired one *)
+                listed_under s h m && really_names c h m && (negb (existsb good (idx s m)) || good h) &&
+                (negb (existsb (supf c) (idx s m)) || supf c h)       (* else a supported (expired) one *)
+            | None =>
+                (* a certificate that does not cover the name: only the default name's (no SNI), the
+                   fallback name's, or the one just loaded from storage when the cache is almost full *)
+                (dflt && listed_under s h (normalize lower is_space (default_name (l_cfg c))) &&
+                   really_names c h (normalize lower is_space (default_name (l_cfg c)))) ||
+                (fb && listed_under s h (normalize lower is_space (fallback_name (l_cfg c))) &&
+                   really_names c h (normalize lower is_space (fallback_name (l_cfg c)))) ||
+                loaded_ok c h
+            end
+        end
+    | _ =>
+        (* a custom selector: the first tried name for which it accepts one of the choices it is
+           offered (the certificates listed under the name, or all cached ones) decides *)
+        match o with
+        | OEmpty => false
+        | OErr => forallb (fun v => match self c s v with Some _ => false | None => true end) (match_names c) &&
+                  error_ok c
+        | OCert h complete =>
+            complete && known_complete c h &&
+            match first_sel (self c) s (match_names c) with
+            | Some (_, x) => str_eqb (c_hash x) h && amem h (cache s)
+            | None =>
+                (dflt && sel_is c (normalize lower is_space (default_name (l_cfg c))) h && amem h (cache s)) ||
+                (fb && sel_is c (normalize lower is_space (fallback_name (l_cfg c))) h && amem h (cache s)) ||
+                loaded_ok c h
+            end
         end
     end.
+
+
+
+  (** the two public views agree: with the default policy a matched answer (server name given) is
+      one of the certificates Cache.AllMatchingCertificates reports for the normalised name *)
+  Definition spec_amc_x_o (c : lcase) (o : obs) (amc : list hash) : bool :=
+    match l_policy c, o with
+    | PDefault, OCert h _ =>
+        match first_listed (l_state c) (match_names c) with
+        | Some _ => is_nil (normalize lower is_space (l_sni c)) || mem_str h amc
+        | None => true
+        end
+    | _, _ => true
+    end.
+  Definition amc_of (c : lcase) : list hash :=
+    map c_hash (all_matching (l_state c) (normalize lower is_space (l_sni c))).
+
+  (** the cache around the call: the C12 invariant holds before and after, within capacity, and
+      only the almost-full branch touches it *)
+  Definition case_certs (c : lcase) : list cert :=
+    map snd (cache (l_state c)) ++ map (fun kv => sd_cert (snd kv)) (x_storage (l_envx c)).
+  Definition spec_cache_x_p (c : lcase) (post : state) : bool :=
+    let nm := names_of_pool (case_certs c) in
+    let bn := dedup (flat_map c_names (case_certs c)) in
+    let bh := dedup ([] :: map c_hash (case_certs c)) in
+    let ok st := inv_b nm (l_cap c) (state_names bn st) (state_hashes bh st) st in
+    ok (l_state c) && ok post &&
+    (almost_full (l_cap c) (length (cache (l_state c))) || state_eqb (l_state c) post).
+
+
+  (** ---- the whole of GetCertificate: the two branches before the lookup ---- *)
+  Definition pre_branch (c : lcase) : bool := l_abort c || acme_tls_alpn (l_sni c) (l_protos c).
+  Definition run_lookup (c : lcase) : result * state :=
+    get_certificate lower is_space (self c) (l_abort c) (l_protos c) (l_conn c) (l_state c) (l_cap c)
+                    (l_cfg c) (l_sni c) (l_ip c) (l_envx c).
+  (** an aborted handshake and a TLS-ALPN challenge handshake without a challenge in progress must
+      fail (never a certificate of the cache) and leave the cache alone *)
+  Definition spec_lookup_o (c : lcase) (o : obs) : bool :=
+    if pre_branch c then match o with OErr => true | _ => false end else spec_lookup_x_o c o.
+  Definition spec_amc_o (c : lcase) (o : obs) (amc : list hash) : bool :=
+    pre_branch c || spec_amc_x_o c o amc.
+  Definition spec_cache_p (c : lcase) (post : state) : bool :=
+    spec_cache_x_p c post && (negb (pre_branch c) || state_eqb (l_state c) post).
 End Run.
 
 (** MatchWildcard's specification: with lower-cased arguments it is [covers] -- for subjects
@@ -97,15 +232,19 @@ Definition spec_match (lower : N -> N) (subject wildcard : str) (o : bool) : boo
   let w := map lower wildcard in
   if has_empty_label s then true else Bool.eqb o (covers_b w s).
 
+(** SubjectQualifiesForCert's documented rule, with fixed constants (the model evaluates the
+    conjuncts the translator read from the source) *)
+Definition reject_chars : str :=
+  [40; 41; 91; 93; 123; 125; 60; 62; 32; 9; 10; 34; 92; 33; 64; 35; 36; 37; 94; 38; 124; 59; 39; 43; 61].
+Definition qual_spec (is_space : N -> bool) (s : str) : bool :=
+  negb (forallb is_space s) &&
+  negb (has_prefix [46] s) && negb (has_suffix [46] s) &&
+  (negb (existsb (N.eqb 42) s) || has_prefix [42; 46] s || str_eqb s [42]) &&
+  negb (existsb (fun c => existsb (N.eqb c) reject_chars) s).
+
 (** ---- wire ---- *)
-Definition get_cert : dec cert :=
-  (h <- get_str ;; ns <- get_list get_str ;; m <- get_bool ;; i <- get_str ;;
-   t <- get_list get_str ;; o <- get_z ;; a <- get_str ;; ret (Cert h ns m i t o a))%Z.
-Definition get_state : dec state :=
-  (c <- get_list (get_pair get_str get_cert) ;;
-   i <- get_list (get_pair get_str (get_list get_str)) ;; ret (St c i))%Z.
 Definition get_attr : dec attr :=
-  (s <- get_bool ;; v <- get_bool ;; c <- get_bool ;; ret (Attr s v c))%Z.
+  (s <- get_bool ;; v <- get_bool ;; c <- get_bool ;; n <- get_list get_str ;; ret (Attr s v c n))%Z.
 Definition get_obs : dec obs :=
   (t <- get_z ;;
    if t =? 0 then ret OErr
@@ -114,20 +253,36 @@ Definition get_obs : dec obs :=
    else (fun _ => None))%Z.
 Definition get_tbls : dec (list (N * N) * list N) :=
   (lt <- get_list (get_pair get_n get_n) ;; st <- get_list get_n ;; ret (lt, st))%Z.
+Definition get_policy : dec policy :=
+  (t <- get_z ;;
+   if t =? 0 then ret PDefault else if t =? 1 then ret PMin else if t =? 2 then ret PMax
+   else if t =? 3 then ret PGoodMin else if t =? 4 then ret PRefuse else (fun _ => None))%Z.
+(** a storage entry: the name it is stored under, the certificate, fresh?, servable?, complete? *)
+Definition get_stored : dec (str * stored * (str * bool)) :=
+  (n <- get_str ;; c <- get_cert ;; f <- get_bool ;; sv <- get_bool ;; k <- get_bool ;;
+   ret (n, Stored c f sv, (c_hash c, k)))%Z.
 Definition get_case : dec case :=
   (k <- get_z ;;
    if k =? 0 then
      t <- get_tbls ;;
      cap <- get_nat ;; s <- get_state ;; at_ <- get_list (get_pair get_str get_attr) ;;
-     d <- get_str ;; f <- get_str ;; sni <- get_str ;; ip <- get_str ;;
-     ne <- get_bool ;; q <- get_bool ;; ld <- get_opt get_cert ;; lc <- get_bool ;;
-     o <- get_obs ;;
-     ret (KLookup (fst t) (snd t) (LCase cap s at_ (Config d f) sni ip (Env ne q ld) lc o))
+     d <- get_str ;; f <- get_str ;; sni <- get_str ;; ip <- get_str ;; conn <- get_bool ;;
+     ab <- get_bool ;; pr <- get_list get_str ;;
+     pol <- get_policy ;; idna <- get_opt get_str ;; st <- get_list get_stored ;;
+     br <- get_list get_str ;; v <- get_opt get_str ;; o <- get_obs ;; post <- get_state ;;
+     amc <- get_list get_str ;;
+     ret (KLookup (fst t) (snd t)
+            (LCase cap s at_ (Config d f) sni ip conn ab pr pol (EnvX idna (map fst st) br v) (map snd st) o post amc))
    else if k =? 1 then
      lt <- get_list (get_pair get_n get_n) ;; a <- get_str ;; b <- get_str ;; o <- get_bool ;;
      ret (KMatch lt a b o)
    else if k =? 2 then
      t <- get_tbls ;; s <- get_str ;; o <- get_str ;; ret (KNorm (fst t) (snd t) s o)
+   else if k =? 3 then
+     st <- get_list get_n ;; s <- get_str ;; o <- get_bool ;; ret (KQual st s o)
+   else if k =? 4 then
+     t <- get_tbls ;; d <- get_str ;; ip <- get_str ;; i <- get_opt get_str ;; o <- get_opt get_str ;;
+     ret (KName (fst t) (snd t) d ip i o)
    else (fun _ => None))%Z.
 
 Definition check_case (k : case) : Z :=
@@ -135,16 +290,24 @@ Definition check_case (k : case) : Z :=
   | KLookup lt st c =>
       let lower := tbl_lower lt in
       let is_space := tbl_space st in
-      code (result_eqb (run_lookup lower is_space c) (l_obs c))
-           (spec_lookup lower is_space c &&
-            match l_obs c, loaded (l_env c) with      (* oracle: what was loaded is complete *)
-            | OCert h _, Some lc => negb (str_eqb (c_hash lc) h) || l_loaded_complete c
-            | _, _ => true end)
+      let (r, post) := run_lookup lower is_space c in
+      code (result_eqb r (l_obs c) && state_eqb post (l_post c) && strs_eqb (amc_of lower is_space c) (l_amc c))
+           (spec_lookup_o lower is_space c (l_obs c) && spec_cache_p c (l_post c) &&
+            spec_amc_o lower is_space c (l_obs c) (l_amc c))
   | KMatch lt a b o =>
       let lower := tbl_lower lt in
       code (Bool.eqb (match_wildcard lower a b) o) (spec_match lower a b o)
   | KNorm lt st s o =>
       code (str_eqb (normalize (tbl_lower lt) (tbl_space st) s) o) true
+  | KQual st s o =>
+      code (Bool.eqb (subject_qualifies (tbl_space st) s) o) (Bool.eqb (qual_spec (tbl_space st) s) o)
+  | KName lt st d ip i o =>
+      (* getNameFromClientHello: the IDNA form computed by the harness with x/net/idna, else the
+         normalised default name, else the local IP; an IDNA error is an error *)
+      let m := hello_name (tbl_lower lt) (tbl_space st) (Config d []) ip i in
+      let eq := match m, o with
+                | None, None => true | Some a, Some b => str_eqb a b | _, _ => false end in
+      code eq eq
   end.
 
 Definition check_line (l : list Z) : Z :=
@@ -157,11 +320,20 @@ Definition check_line (l : list Z) : Z :=
 Definition explain_line (l : list Z) : list Z :=
   match decode get_case l with
   | Some (KLookup lt st c) =>
-      match run_lookup (tbl_lower lt) (tbl_space st) c with
-      | RErr => [0%Z]
-      | ROk x => 1%Z :: put_str (c_hash x)
-      end
+      (match fst (run_lookup (tbl_lower lt) (tbl_space st) c) with
+       | RErr => [0%Z]
+       | ROk x => 1%Z :: put_str (c_hash x)
+       end) ++
+      [(-1)%Z; if state_eqb (snd (run_lookup (tbl_lower lt) (tbl_space st) c)) (l_post c) then 0%Z else 1%Z;
+       if spec_lookup_o (tbl_lower lt) (tbl_space st) c (l_obs c) then 0%Z else 2%Z;
+       if spec_cache_p c (l_post c) then 0%Z else 2%Z;
+       Z.of_nat (length (cache (snd (run_lookup (tbl_lower lt) (tbl_space st) c))))]
   | Some (KMatch lt a b o) => [if match_wildcard (tbl_lower lt) a b then 1%Z else 0%Z]
   | Some (KNorm lt st s o) => put_str (normalize (tbl_lower lt) (tbl_space st) s)
+  | Some (KName lt st d ip i o) =>
+      match hello_name (tbl_lower lt) (tbl_space st) (Config d []) ip i with
+      | Some a => 1%Z :: put_str a | None => [0%Z] end
+  | Some (KQual st s o) => [if subject_qualifies (tbl_space st) s then 1%Z else 0%Z;
+                            if qual_spec (tbl_space st) s then 1%Z else 0%Z]
   | None => []
   end.
